@@ -73,3 +73,10 @@ Theorem c07_reply_whole_or_the_error_is_returned : forall pong ws d r ws',
   reply_then_return pong ws = (d, r, ws') ->
   (r = WOk -> d = pong) /\ (forall e, r = WErr e -> exists rest, pong = d ++ rest /\ rest <> []).
 Proof. exact reply_whole_or_error. Qed.
+
+(* the parked keep-alive reply is CONNECTION state: whichever future does the flushing - a read() or the caller's write(), run to the
+   end or dropped at a not-ready poll - what it wrote followed by what is still parked is the reply, and nothing is left parked
+   exactly when the flush completed *)
+Theorem c07_parked_reply_is_conserved : forall ws pw r pw' ws' w,
+  flush pw ws = (r, pw', ws', w) -> pw = w ++ pw' /\ (r = FDone -> pw' = []).
+Proof. exact flush_conserve. Qed.
